@@ -322,7 +322,7 @@ pub(crate) mod verif_logic {
     //@ob name=C05.or.2.NE harness=k_c05_or_2_NE props=C05,C04 tier=quick strength=bounded bound="2 operands; outcome pattern NE (E=evaluation error, N=new value, R=raw value, P=does not parse); truthiness of every value symbolic" fns=op::logic::or stubs=4 timeout=300 cutdrop=1 group=medium
     //@ desc="or over 2 operands: result (the deciding operand's value itself, or error/null) and the exact evaluation log (which operands, in which order, each at most once, against the outer data) equal the spec; an operand that is not needed has no effect even if it is invalid; the parser is applied to rule text only"
     lazy_harness!(k_c05_or_2_NE, 2, 1, body_or);
-    //@ob name=C05.or.2.ER harness=k_c05_or_2_ER props=C05,C04 tier=thorough strength=bounded bound="2 operands; outcome pattern ER (E=evaluation error, N=new value, R=raw value, P=does not parse); truthiness of every value symbolic" fns=op::logic::or stubs=4 timeout=300 cutdrop=1 group=heavy
+    //@ob name=C05.or.2.ER harness=k_c05_or_2_ER props=C05,C04 tier=off strength=bounded bound="2 operands; outcome pattern ER (E=evaluation error, N=new value, R=raw value, P=does not parse); truthiness of every value symbolic" fns=op::logic::or stubs=4 timeout=300 cutdrop=1 group=heavy
     //@ desc="or over 2 operands: result (the deciding operand's value itself, or error/null) and the exact evaluation log (which operands, in which order, each at most once, against the outer data) equal the spec; an operand that is not needed has no effect even if it is invalid; the parser is applied to rule text only"
     lazy_harness!(k_c05_or_2_ER, 2, 8, body_or);
     //@ob name=C05.or.2.NR harness=k_c05_or_2_NR props=C05,C04 tier=quick strength=bounded bound="2 operands; outcome pattern NR (E=evaluation error, N=new value, R=raw value, P=does not parse); truthiness of every value symbolic" fns=op::logic::or stubs=4 timeout=300 cutdrop=1 group=medium
@@ -334,10 +334,10 @@ pub(crate) mod verif_logic {
     //@ob name=C05.or.3.NRE harness=k_c05_or_3_NRE props=C05,C04 tier=thorough strength=bounded bound="3 operands; outcome pattern NRE (E=evaluation error, N=new value, R=raw value, P=does not parse); truthiness of every value symbolic" fns=op::logic::or stubs=4 timeout=300 cutdrop=1 group=medium
     //@ desc="or over 3 operands: result (the deciding operand's value itself, or error/null) and the exact evaluation log (which operands, in which order, each at most once, against the outer data) equal the spec; an operand that is not needed has no effect even if it is invalid; the parser is applied to rule text only"
     lazy_harness!(k_c05_or_3_NRE, 3, 9, body_or);
-    //@ob name=C05.or.3.NEN harness=k_c05_or_3_NEN props=C05,C04 tier=thorough strength=bounded bound="3 operands; outcome pattern NEN (E=evaluation error, N=new value, R=raw value, P=does not parse); truthiness of every value symbolic" fns=op::logic::or stubs=4 timeout=300 cutdrop=1 group=heavy
+    //@ob name=C05.or.3.NEN harness=k_c05_or_3_NEN props=C05,C04 tier=off strength=bounded bound="3 operands; outcome pattern NEN (E=evaluation error, N=new value, R=raw value, P=does not parse); truthiness of every value symbolic" fns=op::logic::or stubs=4 timeout=300 cutdrop=1 group=heavy
     //@ desc="or over 3 operands: result (the deciding operand's value itself, or error/null) and the exact evaluation log (which operands, in which order, each at most once, against the outer data) equal the spec; an operand that is not needed has no effect even if it is invalid; the parser is applied to rule text only"
     lazy_harness!(k_c05_or_3_NEN, 3, 17, body_or);
-    //@ob name=C05.or.3.ERN harness=k_c05_or_3_ERN props=C05,C04 tier=thorough strength=bounded bound="3 operands; outcome pattern ERN (E=evaluation error, N=new value, R=raw value, P=does not parse); truthiness of every value symbolic" fns=op::logic::or stubs=4 timeout=300 cutdrop=1 group=heavy
+    //@ob name=C05.or.3.ERN harness=k_c05_or_3_ERN props=C05,C04 tier=off strength=bounded bound="3 operands; outcome pattern ERN (E=evaluation error, N=new value, R=raw value, P=does not parse); truthiness of every value symbolic" fns=op::logic::or stubs=4 timeout=300 cutdrop=1 group=heavy
     //@ desc="or over 3 operands: result (the deciding operand's value itself, or error/null) and the exact evaluation log (which operands, in which order, each at most once, against the outer data) equal the spec; an operand that is not needed has no effect even if it is invalid; the parser is applied to rule text only"
     lazy_harness!(k_c05_or_3_ERN, 3, 24, body_or);
     //@ob name=C05.or.3.NRN harness=k_c05_or_3_NRN props=C05,C04 tier=quick strength=bounded bound="3 operands; outcome pattern NRN (E=evaluation error, N=new value, R=raw value, P=does not parse); truthiness of every value symbolic" fns=op::logic::or stubs=4 timeout=300 cutdrop=1 group=medium
@@ -349,13 +349,13 @@ pub(crate) mod verif_logic {
     //@ob name=C05.or.4.NRNE harness=k_c05_or_4_NRNE props=C05,C04 tier=thorough strength=bounded bound="4 operands; outcome pattern NRNE (E=evaluation error, N=new value, R=raw value, P=does not parse); truthiness of every value symbolic" fns=op::logic::or stubs=4 timeout=300 cutdrop=1 group=medium
     //@ desc="or over 4 operands: result (the deciding operand's value itself, or error/null) and the exact evaluation log (which operands, in which order, each at most once, against the outer data) equal the spec; an operand that is not needed has no effect even if it is invalid; the parser is applied to rule text only"
     lazy_harness!(k_c05_or_4_NRNE, 4, 25, body_or);
-    //@ob name=C05.or.4.NRER harness=k_c05_or_4_NRER props=C05,C04 tier=thorough strength=bounded bound="4 operands; outcome pattern NRER (E=evaluation error, N=new value, R=raw value, P=does not parse); truthiness of every value symbolic" fns=op::logic::or stubs=4 timeout=300 cutdrop=1 group=heavy
+    //@ob name=C05.or.4.NRER harness=k_c05_or_4_NRER props=C05,C04 tier=off strength=bounded bound="4 operands; outcome pattern NRER (E=evaluation error, N=new value, R=raw value, P=does not parse); truthiness of every value symbolic" fns=op::logic::or stubs=4 timeout=300 cutdrop=1 group=heavy
     //@ desc="or over 4 operands: result (the deciding operand's value itself, or error/null) and the exact evaluation log (which operands, in which order, each at most once, against the outer data) equal the spec; an operand that is not needed has no effect even if it is invalid; the parser is applied to rule text only"
     lazy_harness!(k_c05_or_4_NRER, 4, 137, body_or);
-    //@ob name=C05.or.4.NENR harness=k_c05_or_4_NENR props=C05,C04 tier=thorough strength=bounded bound="4 operands; outcome pattern NENR (E=evaluation error, N=new value, R=raw value, P=does not parse); truthiness of every value symbolic" fns=op::logic::or stubs=4 timeout=300 cutdrop=1 group=heavy
+    //@ob name=C05.or.4.NENR harness=k_c05_or_4_NENR props=C05,C04 tier=off strength=bounded bound="4 operands; outcome pattern NENR (E=evaluation error, N=new value, R=raw value, P=does not parse); truthiness of every value symbolic" fns=op::logic::or stubs=4 timeout=300 cutdrop=1 group=heavy
     //@ desc="or over 4 operands: result (the deciding operand's value itself, or error/null) and the exact evaluation log (which operands, in which order, each at most once, against the outer data) equal the spec; an operand that is not needed has no effect even if it is invalid; the parser is applied to rule text only"
     lazy_harness!(k_c05_or_4_NENR, 4, 145, body_or);
-    //@ob name=C05.or.4.ERNR harness=k_c05_or_4_ERNR props=C05,C04 tier=thorough strength=bounded bound="4 operands; outcome pattern ERNR (E=evaluation error, N=new value, R=raw value, P=does not parse); truthiness of every value symbolic" fns=op::logic::or stubs=4 timeout=300 cutdrop=1 group=heavy
+    //@ob name=C05.or.4.ERNR harness=k_c05_or_4_ERNR props=C05,C04 tier=off strength=bounded bound="4 operands; outcome pattern ERNR (E=evaluation error, N=new value, R=raw value, P=does not parse); truthiness of every value symbolic" fns=op::logic::or stubs=4 timeout=300 cutdrop=1 group=heavy
     //@ desc="or over 4 operands: result (the deciding operand's value itself, or error/null) and the exact evaluation log (which operands, in which order, each at most once, against the outer data) equal the spec; an operand that is not needed has no effect even if it is invalid; the parser is applied to rule text only"
     lazy_harness!(k_c05_or_4_ERNR, 4, 152, body_or);
     //@ob name=C05.or.4.NRNR harness=k_c05_or_4_NRNR props=C05,C04 tier=thorough strength=bounded bound="4 operands; outcome pattern NRNR (E=evaluation error, N=new value, R=raw value, P=does not parse); truthiness of every value symbolic" fns=op::logic::or stubs=4 timeout=300 cutdrop=1 group=medium
@@ -364,16 +364,16 @@ pub(crate) mod verif_logic {
     //@ob name=C05.or.5.NRNRE harness=k_c05_or_5_NRNRE props=C05,C04 tier=thorough strength=bounded bound="5 operands; outcome pattern NRNRE (E=evaluation error, N=new value, R=raw value, P=does not parse); truthiness of every value symbolic" fns=op::logic::or stubs=4 timeout=300 cutdrop=1 group=medium
     //@ desc="or over 5 operands: result (the deciding operand's value itself, or error/null) and the exact evaluation log (which operands, in which order, each at most once, against the outer data) equal the spec; an operand that is not needed has no effect even if it is invalid; the parser is applied to rule text only"
     lazy_harness!(k_c05_or_5_NRNRE, 5, 153, body_or);
-    //@ob name=C05.or.5.NRNEN harness=k_c05_or_5_NRNEN props=C05,C04 tier=thorough strength=bounded bound="5 operands; outcome pattern NRNEN (E=evaluation error, N=new value, R=raw value, P=does not parse); truthiness of every value symbolic" fns=op::logic::or stubs=4 timeout=300 cutdrop=1 group=heavy
+    //@ob name=C05.or.5.NRNEN harness=k_c05_or_5_NRNEN props=C05,C04 tier=off strength=bounded bound="5 operands; outcome pattern NRNEN (E=evaluation error, N=new value, R=raw value, P=does not parse); truthiness of every value symbolic" fns=op::logic::or stubs=4 timeout=300 cutdrop=1 group=heavy
     //@ desc="or over 5 operands: result (the deciding operand's value itself, or error/null) and the exact evaluation log (which operands, in which order, each at most once, against the outer data) equal the spec; an operand that is not needed has no effect even if it is invalid; the parser is applied to rule text only"
     lazy_harness!(k_c05_or_5_NRNEN, 5, 281, body_or);
-    //@ob name=C05.or.5.NRERN harness=k_c05_or_5_NRERN props=C05,C04 tier=thorough strength=bounded bound="5 operands; outcome pattern NRERN (E=evaluation error, N=new value, R=raw value, P=does not parse); truthiness of every value symbolic" fns=op::logic::or stubs=4 timeout=300 cutdrop=1 group=heavy
+    //@ob name=C05.or.5.NRERN harness=k_c05_or_5_NRERN props=C05,C04 tier=off strength=bounded bound="5 operands; outcome pattern NRERN (E=evaluation error, N=new value, R=raw value, P=does not parse); truthiness of every value symbolic" fns=op::logic::or stubs=4 timeout=300 cutdrop=1 group=heavy
     //@ desc="or over 5 operands: result (the deciding operand's value itself, or error/null) and the exact evaluation log (which operands, in which order, each at most once, against the outer data) equal the spec; an operand that is not needed has no effect even if it is invalid; the parser is applied to rule text only"
     lazy_harness!(k_c05_or_5_NRERN, 5, 393, body_or);
-    //@ob name=C05.or.5.NENRN harness=k_c05_or_5_NENRN props=C05,C04 tier=thorough strength=bounded bound="5 operands; outcome pattern NENRN (E=evaluation error, N=new value, R=raw value, P=does not parse); truthiness of every value symbolic" fns=op::logic::or stubs=4 timeout=300 cutdrop=1 group=heavy
+    //@ob name=C05.or.5.NENRN harness=k_c05_or_5_NENRN props=C05,C04 tier=off strength=bounded bound="5 operands; outcome pattern NENRN (E=evaluation error, N=new value, R=raw value, P=does not parse); truthiness of every value symbolic" fns=op::logic::or stubs=4 timeout=300 cutdrop=1 group=heavy
     //@ desc="or over 5 operands: result (the deciding operand's value itself, or error/null) and the exact evaluation log (which operands, in which order, each at most once, against the outer data) equal the spec; an operand that is not needed has no effect even if it is invalid; the parser is applied to rule text only"
     lazy_harness!(k_c05_or_5_NENRN, 5, 401, body_or);
-    //@ob name=C05.or.5.ERNRN harness=k_c05_or_5_ERNRN props=C05,C04 tier=thorough strength=bounded bound="5 operands; outcome pattern ERNRN (E=evaluation error, N=new value, R=raw value, P=does not parse); truthiness of every value symbolic" fns=op::logic::or stubs=4 timeout=300 cutdrop=1 group=heavy
+    //@ob name=C05.or.5.ERNRN harness=k_c05_or_5_ERNRN props=C05,C04 tier=off strength=bounded bound="5 operands; outcome pattern ERNRN (E=evaluation error, N=new value, R=raw value, P=does not parse); truthiness of every value symbolic" fns=op::logic::or stubs=4 timeout=300 cutdrop=1 group=heavy
     //@ desc="or over 5 operands: result (the deciding operand's value itself, or error/null) and the exact evaluation log (which operands, in which order, each at most once, against the outer data) equal the spec; an operand that is not needed has no effect even if it is invalid; the parser is applied to rule text only"
     lazy_harness!(k_c05_or_5_ERNRN, 5, 408, body_or);
     //@ob name=C05.or.5.NRNRN harness=k_c05_or_5_NRNRN props=C05,C04 tier=thorough strength=bounded bound="5 operands; outcome pattern NRNRN (E=evaluation error, N=new value, R=raw value, P=does not parse); truthiness of every value symbolic" fns=op::logic::or stubs=4 timeout=300 cutdrop=1 group=medium
@@ -388,7 +388,7 @@ pub(crate) mod verif_logic {
     //@ob name=C05.and.2.NE harness=k_c05_and_2_NE props=C05,C04 tier=quick strength=bounded bound="2 operands; outcome pattern NE (E=evaluation error, N=new value, R=raw value, P=does not parse); truthiness of every value symbolic" fns=op::logic::and stubs=4 timeout=300 cutdrop=1 group=medium
     //@ desc="and over 2 operands: result (the deciding operand's value itself, or error/null) and the exact evaluation log (which operands, in which order, each at most once, against the outer data) equal the spec; an operand that is not needed has no effect even if it is invalid; the parser is applied to rule text only"
     lazy_harness!(k_c05_and_2_NE, 2, 1, body_and);
-    //@ob name=C05.and.2.ER harness=k_c05_and_2_ER props=C05,C04 tier=thorough strength=bounded bound="2 operands; outcome pattern ER (E=evaluation error, N=new value, R=raw value, P=does not parse); truthiness of every value symbolic" fns=op::logic::and stubs=4 timeout=300 cutdrop=1 group=heavy
+    //@ob name=C05.and.2.ER harness=k_c05_and_2_ER props=C05,C04 tier=off strength=bounded bound="2 operands; outcome pattern ER (E=evaluation error, N=new value, R=raw value, P=does not parse); truthiness of every value symbolic" fns=op::logic::and stubs=4 timeout=300 cutdrop=1 group=heavy
     //@ desc="and over 2 operands: result (the deciding operand's value itself, or error/null) and the exact evaluation log (which operands, in which order, each at most once, against the outer data) equal the spec; an operand that is not needed has no effect even if it is invalid; the parser is applied to rule text only"
     lazy_harness!(k_c05_and_2_ER, 2, 8, body_and);
     //@ob name=C05.and.2.NR harness=k_c05_and_2_NR props=C05,C04 tier=quick strength=bounded bound="2 operands; outcome pattern NR (E=evaluation error, N=new value, R=raw value, P=does not parse); truthiness of every value symbolic" fns=op::logic::and stubs=4 timeout=300 cutdrop=1 group=medium
@@ -400,10 +400,10 @@ pub(crate) mod verif_logic {
     //@ob name=C05.and.3.NRE harness=k_c05_and_3_NRE props=C05,C04 tier=thorough strength=bounded bound="3 operands; outcome pattern NRE (E=evaluation error, N=new value, R=raw value, P=does not parse); truthiness of every value symbolic" fns=op::logic::and stubs=4 timeout=300 cutdrop=1 group=medium
     //@ desc="and over 3 operands: result (the deciding operand's value itself, or error/null) and the exact evaluation log (which operands, in which order, each at most once, against the outer data) equal the spec; an operand that is not needed has no effect even if it is invalid; the parser is applied to rule text only"
     lazy_harness!(k_c05_and_3_NRE, 3, 9, body_and);
-    //@ob name=C05.and.3.NEN harness=k_c05_and_3_NEN props=C05,C04 tier=thorough strength=bounded bound="3 operands; outcome pattern NEN (E=evaluation error, N=new value, R=raw value, P=does not parse); truthiness of every value symbolic" fns=op::logic::and stubs=4 timeout=300 cutdrop=1 group=heavy
+    //@ob name=C05.and.3.NEN harness=k_c05_and_3_NEN props=C05,C04 tier=off strength=bounded bound="3 operands; outcome pattern NEN (E=evaluation error, N=new value, R=raw value, P=does not parse); truthiness of every value symbolic" fns=op::logic::and stubs=4 timeout=300 cutdrop=1 group=heavy
     //@ desc="and over 3 operands: result (the deciding operand's value itself, or error/null) and the exact evaluation log (which operands, in which order, each at most once, against the outer data) equal the spec; an operand that is not needed has no effect even if it is invalid; the parser is applied to rule text only"
     lazy_harness!(k_c05_and_3_NEN, 3, 17, body_and);
-    //@ob name=C05.and.3.ERN harness=k_c05_and_3_ERN props=C05,C04 tier=thorough strength=bounded bound="3 operands; outcome pattern ERN (E=evaluation error, N=new value, R=raw value, P=does not parse); truthiness of every value symbolic" fns=op::logic::and stubs=4 timeout=300 cutdrop=1 group=heavy
+    //@ob name=C05.and.3.ERN harness=k_c05_and_3_ERN props=C05,C04 tier=off strength=bounded bound="3 operands; outcome pattern ERN (E=evaluation error, N=new value, R=raw value, P=does not parse); truthiness of every value symbolic" fns=op::logic::and stubs=4 timeout=300 cutdrop=1 group=heavy
     //@ desc="and over 3 operands: result (the deciding operand's value itself, or error/null) and the exact evaluation log (which operands, in which order, each at most once, against the outer data) equal the spec; an operand that is not needed has no effect even if it is invalid; the parser is applied to rule text only"
     lazy_harness!(k_c05_and_3_ERN, 3, 24, body_and);
     //@ob name=C05.and.3.NRN harness=k_c05_and_3_NRN props=C05,C04 tier=quick strength=bounded bound="3 operands; outcome pattern NRN (E=evaluation error, N=new value, R=raw value, P=does not parse); truthiness of every value symbolic" fns=op::logic::and stubs=4 timeout=300 cutdrop=1 group=medium
@@ -415,13 +415,13 @@ pub(crate) mod verif_logic {
     //@ob name=C05.and.4.NRNE harness=k_c05_and_4_NRNE props=C05,C04 tier=thorough strength=bounded bound="4 operands; outcome pattern NRNE (E=evaluation error, N=new value, R=raw value, P=does not parse); truthiness of every value symbolic" fns=op::logic::and stubs=4 timeout=300 cutdrop=1 group=medium
     //@ desc="and over 4 operands: result (the deciding operand's value itself, or error/null) and the exact evaluation log (which operands, in which order, each at most once, against the outer data) equal the spec; an operand that is not needed has no effect even if it is invalid; the parser is applied to rule text only"
     lazy_harness!(k_c05_and_4_NRNE, 4, 25, body_and);
-    //@ob name=C05.and.4.NRER harness=k_c05_and_4_NRER props=C05,C04 tier=thorough strength=bounded bound="4 operands; outcome pattern NRER (E=evaluation error, N=new value, R=raw value, P=does not parse); truthiness of every value symbolic" fns=op::logic::and stubs=4 timeout=300 cutdrop=1 group=heavy
+    //@ob name=C05.and.4.NRER harness=k_c05_and_4_NRER props=C05,C04 tier=off strength=bounded bound="4 operands; outcome pattern NRER (E=evaluation error, N=new value, R=raw value, P=does not parse); truthiness of every value symbolic" fns=op::logic::and stubs=4 timeout=300 cutdrop=1 group=heavy
     //@ desc="and over 4 operands: result (the deciding operand's value itself, or error/null) and the exact evaluation log (which operands, in which order, each at most once, against the outer data) equal the spec; an operand that is not needed has no effect even if it is invalid; the parser is applied to rule text only"
     lazy_harness!(k_c05_and_4_NRER, 4, 137, body_and);
-    //@ob name=C05.and.4.NENR harness=k_c05_and_4_NENR props=C05,C04 tier=thorough strength=bounded bound="4 operands; outcome pattern NENR (E=evaluation error, N=new value, R=raw value, P=does not parse); truthiness of every value symbolic" fns=op::logic::and stubs=4 timeout=300 cutdrop=1 group=heavy
+    //@ob name=C05.and.4.NENR harness=k_c05_and_4_NENR props=C05,C04 tier=off strength=bounded bound="4 operands; outcome pattern NENR (E=evaluation error, N=new value, R=raw value, P=does not parse); truthiness of every value symbolic" fns=op::logic::and stubs=4 timeout=300 cutdrop=1 group=heavy
     //@ desc="and over 4 operands: result (the deciding operand's value itself, or error/null) and the exact evaluation log (which operands, in which order, each at most once, against the outer data) equal the spec; an operand that is not needed has no effect even if it is invalid; the parser is applied to rule text only"
     lazy_harness!(k_c05_and_4_NENR, 4, 145, body_and);
-    //@ob name=C05.and.4.ERNR harness=k_c05_and_4_ERNR props=C05,C04 tier=thorough strength=bounded bound="4 operands; outcome pattern ERNR (E=evaluation error, N=new value, R=raw value, P=does not parse); truthiness of every value symbolic" fns=op::logic::and stubs=4 timeout=300 cutdrop=1 group=heavy
+    //@ob name=C05.and.4.ERNR harness=k_c05_and_4_ERNR props=C05,C04 tier=off strength=bounded bound="4 operands; outcome pattern ERNR (E=evaluation error, N=new value, R=raw value, P=does not parse); truthiness of every value symbolic" fns=op::logic::and stubs=4 timeout=300 cutdrop=1 group=heavy
     //@ desc="and over 4 operands: result (the deciding operand's value itself, or error/null) and the exact evaluation log (which operands, in which order, each at most once, against the outer data) equal the spec; an operand that is not needed has no effect even if it is invalid; the parser is applied to rule text only"
     lazy_harness!(k_c05_and_4_ERNR, 4, 152, body_and);
     //@ob name=C05.and.4.NRNR harness=k_c05_and_4_NRNR props=C05,C04 tier=thorough strength=bounded bound="4 operands; outcome pattern NRNR (E=evaluation error, N=new value, R=raw value, P=does not parse); truthiness of every value symbolic" fns=op::logic::and stubs=4 timeout=300 cutdrop=1 group=medium
@@ -430,16 +430,16 @@ pub(crate) mod verif_logic {
     //@ob name=C05.and.5.NRNRE harness=k_c05_and_5_NRNRE props=C05,C04 tier=thorough strength=bounded bound="5 operands; outcome pattern NRNRE (E=evaluation error, N=new value, R=raw value, P=does not parse); truthiness of every value symbolic" fns=op::logic::and stubs=4 timeout=300 cutdrop=1 group=medium
     //@ desc="and over 5 operands: result (the deciding operand's value itself, or error/null) and the exact evaluation log (which operands, in which order, each at most once, against the outer data) equal the spec; an operand that is not needed has no effect even if it is invalid; the parser is applied to rule text only"
     lazy_harness!(k_c05_and_5_NRNRE, 5, 153, body_and);
-    //@ob name=C05.and.5.NRNEN harness=k_c05_and_5_NRNEN props=C05,C04 tier=thorough strength=bounded bound="5 operands; outcome pattern NRNEN (E=evaluation error, N=new value, R=raw value, P=does not parse); truthiness of every value symbolic" fns=op::logic::and stubs=4 timeout=300 cutdrop=1 group=heavy
+    //@ob name=C05.and.5.NRNEN harness=k_c05_and_5_NRNEN props=C05,C04 tier=off strength=bounded bound="5 operands; outcome pattern NRNEN (E=evaluation error, N=new value, R=raw value, P=does not parse); truthiness of every value symbolic" fns=op::logic::and stubs=4 timeout=300 cutdrop=1 group=heavy
     //@ desc="and over 5 operands: result (the deciding operand's value itself, or error/null) and the exact evaluation log (which operands, in which order, each at most once, against the outer data) equal the spec; an operand that is not needed has no effect even if it is invalid; the parser is applied to rule text only"
     lazy_harness!(k_c05_and_5_NRNEN, 5, 281, body_and);
-    //@ob name=C05.and.5.NRERN harness=k_c05_and_5_NRERN props=C05,C04 tier=thorough strength=bounded bound="5 operands; outcome pattern NRERN (E=evaluation error, N=new value, R=raw value, P=does not parse); truthiness of every value symbolic" fns=op::logic::and stubs=4 timeout=300 cutdrop=1 group=heavy
+    //@ob name=C05.and.5.NRERN harness=k_c05_and_5_NRERN props=C05,C04 tier=off strength=bounded bound="5 operands; outcome pattern NRERN (E=evaluation error, N=new value, R=raw value, P=does not parse); truthiness of every value symbolic" fns=op::logic::and stubs=4 timeout=300 cutdrop=1 group=heavy
     //@ desc="and over 5 operands: result (the deciding operand's value itself, or error/null) and the exact evaluation log (which operands, in which order, each at most once, against the outer data) equal the spec; an operand that is not needed has no effect even if it is invalid; the parser is applied to rule text only"
     lazy_harness!(k_c05_and_5_NRERN, 5, 393, body_and);
-    //@ob name=C05.and.5.NENRN harness=k_c05_and_5_NENRN props=C05,C04 tier=thorough strength=bounded bound="5 operands; outcome pattern NENRN (E=evaluation error, N=new value, R=raw value, P=does not parse); truthiness of every value symbolic" fns=op::logic::and stubs=4 timeout=300 cutdrop=1 group=heavy
+    //@ob name=C05.and.5.NENRN harness=k_c05_and_5_NENRN props=C05,C04 tier=off strength=bounded bound="5 operands; outcome pattern NENRN (E=evaluation error, N=new value, R=raw value, P=does not parse); truthiness of every value symbolic" fns=op::logic::and stubs=4 timeout=300 cutdrop=1 group=heavy
     //@ desc="and over 5 operands: result (the deciding operand's value itself, or error/null) and the exact evaluation log (which operands, in which order, each at most once, against the outer data) equal the spec; an operand that is not needed has no effect even if it is invalid; the parser is applied to rule text only"
     lazy_harness!(k_c05_and_5_NENRN, 5, 401, body_and);
-    //@ob name=C05.and.5.ERNRN harness=k_c05_and_5_ERNRN props=C05,C04 tier=thorough strength=bounded bound="5 operands; outcome pattern ERNRN (E=evaluation error, N=new value, R=raw value, P=does not parse); truthiness of every value symbolic" fns=op::logic::and stubs=4 timeout=300 cutdrop=1 group=heavy
+    //@ob name=C05.and.5.ERNRN harness=k_c05_and_5_ERNRN props=C05,C04 tier=off strength=bounded bound="5 operands; outcome pattern ERNRN (E=evaluation error, N=new value, R=raw value, P=does not parse); truthiness of every value symbolic" fns=op::logic::and stubs=4 timeout=300 cutdrop=1 group=heavy
     //@ desc="and over 5 operands: result (the deciding operand's value itself, or error/null) and the exact evaluation log (which operands, in which order, each at most once, against the outer data) equal the spec; an operand that is not needed has no effect even if it is invalid; the parser is applied to rule text only"
     lazy_harness!(k_c05_and_5_ERNRN, 5, 408, body_and);
     //@ob name=C05.and.5.NRNRN harness=k_c05_and_5_NRNRN props=C05,C04 tier=thorough strength=bounded bound="5 operands; outcome pattern NRNRN (E=evaluation error, N=new value, R=raw value, P=does not parse); truthiness of every value symbolic" fns=op::logic::and stubs=4 timeout=300 cutdrop=1 group=medium
@@ -457,7 +457,7 @@ pub(crate) mod verif_logic {
     //@ob name=C05.if.2.NE harness=k_c05_if_2_NE props=C05,C04 tier=quick strength=bounded bound="2 operands; outcome pattern NE (E=evaluation error, N=new value, R=raw value, P=does not parse); truthiness of every value symbolic" fns=op::logic::if_ stubs=4 timeout=300 cutdrop=1 group=medium
     //@ desc="if over 2 operands: result (the deciding operand's value itself, or error/null) and the exact evaluation log (which operands, in which order, each at most once, against the outer data) equal the spec; an operand that is not needed has no effect even if it is invalid; the parser is applied to rule text only"
     lazy_harness!(k_c05_if_2_NE, 2, 1, body_if);
-    //@ob name=C05.if.2.ER harness=k_c05_if_2_ER props=C05,C04 tier=thorough strength=bounded bound="2 operands; outcome pattern ER (E=evaluation error, N=new value, R=raw value, P=does not parse); truthiness of every value symbolic" fns=op::logic::if_ stubs=4 timeout=300 cutdrop=1 group=heavy
+    //@ob name=C05.if.2.ER harness=k_c05_if_2_ER props=C05,C04 tier=off strength=bounded bound="2 operands; outcome pattern ER (E=evaluation error, N=new value, R=raw value, P=does not parse); truthiness of every value symbolic" fns=op::logic::if_ stubs=4 timeout=300 cutdrop=1 group=heavy
     //@ desc="if over 2 operands: result (the deciding operand's value itself, or error/null) and the exact evaluation log (which operands, in which order, each at most once, against the outer data) equal the spec; an operand that is not needed has no effect even if it is invalid; the parser is applied to rule text only"
     lazy_harness!(k_c05_if_2_ER, 2, 8, body_if);
     //@ob name=C05.if.2.NR harness=k_c05_if_2_NR props=C05,C04 tier=quick strength=bounded bound="2 operands; outcome pattern NR (E=evaluation error, N=new value, R=raw value, P=does not parse); truthiness of every value symbolic" fns=op::logic::if_ stubs=4 timeout=300 cutdrop=1 group=medium
@@ -469,10 +469,10 @@ pub(crate) mod verif_logic {
     //@ob name=C05.if.3.NRE harness=k_c05_if_3_NRE props=C05,C04 tier=thorough strength=bounded bound="3 operands; outcome pattern NRE (E=evaluation error, N=new value, R=raw value, P=does not parse); truthiness of every value symbolic" fns=op::logic::if_ stubs=4 timeout=300 cutdrop=1 group=medium
     //@ desc="if over 3 operands: result (the deciding operand's value itself, or error/null) and the exact evaluation log (which operands, in which order, each at most once, against the outer data) equal the spec; an operand that is not needed has no effect even if it is invalid; the parser is applied to rule text only"
     lazy_harness!(k_c05_if_3_NRE, 3, 9, body_if);
-    //@ob name=C05.if.3.NEN harness=k_c05_if_3_NEN props=C05,C04 tier=thorough strength=bounded bound="3 operands; outcome pattern NEN (E=evaluation error, N=new value, R=raw value, P=does not parse); truthiness of every value symbolic" fns=op::logic::if_ stubs=4 timeout=300 cutdrop=1 group=heavy
+    //@ob name=C05.if.3.NEN harness=k_c05_if_3_NEN props=C05,C04 tier=off strength=bounded bound="3 operands; outcome pattern NEN (E=evaluation error, N=new value, R=raw value, P=does not parse); truthiness of every value symbolic" fns=op::logic::if_ stubs=4 timeout=300 cutdrop=1 group=heavy
     //@ desc="if over 3 operands: result (the deciding operand's value itself, or error/null) and the exact evaluation log (which operands, in which order, each at most once, against the outer data) equal the spec; an operand that is not needed has no effect even if it is invalid; the parser is applied to rule text only"
     lazy_harness!(k_c05_if_3_NEN, 3, 17, body_if);
-    //@ob name=C05.if.3.ERN harness=k_c05_if_3_ERN props=C05,C04 tier=thorough strength=bounded bound="3 operands; outcome pattern ERN (E=evaluation error, N=new value, R=raw value, P=does not parse); truthiness of every value symbolic" fns=op::logic::if_ stubs=4 timeout=300 cutdrop=1 group=heavy
+    //@ob name=C05.if.3.ERN harness=k_c05_if_3_ERN props=C05,C04 tier=off strength=bounded bound="3 operands; outcome pattern ERN (E=evaluation error, N=new value, R=raw value, P=does not parse); truthiness of every value symbolic" fns=op::logic::if_ stubs=4 timeout=300 cutdrop=1 group=heavy
     //@ desc="if over 3 operands: result (the deciding operand's value itself, or error/null) and the exact evaluation log (which operands, in which order, each at most once, against the outer data) equal the spec; an operand that is not needed has no effect even if it is invalid; the parser is applied to rule text only"
     lazy_harness!(k_c05_if_3_ERN, 3, 24, body_if);
     //@ob name=C05.if.3.NRN harness=k_c05_if_3_NRN props=C05,C04 tier=quick strength=bounded bound="3 operands; outcome pattern NRN (E=evaluation error, N=new value, R=raw value, P=does not parse); truthiness of every value symbolic" fns=op::logic::if_ stubs=4 timeout=300 cutdrop=1 group=medium
@@ -484,13 +484,13 @@ pub(crate) mod verif_logic {
     //@ob name=C05.if.4.NRNE harness=k_c05_if_4_NRNE props=C05,C04 tier=thorough strength=bounded bound="4 operands; outcome pattern NRNE (E=evaluation error, N=new value, R=raw value, P=does not parse); truthiness of every value symbolic" fns=op::logic::if_ stubs=4 timeout=300 cutdrop=1 group=medium
     //@ desc="if over 4 operands: result (the deciding operand's value itself, or error/null) and the exact evaluation log (which operands, in which order, each at most once, against the outer data) equal the spec; an operand that is not needed has no effect even if it is invalid; the parser is applied to rule text only"
     lazy_harness!(k_c05_if_4_NRNE, 4, 25, body_if);
-    //@ob name=C05.if.4.NRER harness=k_c05_if_4_NRER props=C05,C04 tier=thorough strength=bounded bound="4 operands; outcome pattern NRER (E=evaluation error, N=new value, R=raw value, P=does not parse); truthiness of every value symbolic" fns=op::logic::if_ stubs=4 timeout=300 cutdrop=1 group=heavy
+    //@ob name=C05.if.4.NRER harness=k_c05_if_4_NRER props=C05,C04 tier=off strength=bounded bound="4 operands; outcome pattern NRER (E=evaluation error, N=new value, R=raw value, P=does not parse); truthiness of every value symbolic" fns=op::logic::if_ stubs=4 timeout=300 cutdrop=1 group=heavy
     //@ desc="if over 4 operands: result (the deciding operand's value itself, or error/null) and the exact evaluation log (which operands, in which order, each at most once, against the outer data) equal the spec; an operand that is not needed has no effect even if it is invalid; the parser is applied to rule text only"
     lazy_harness!(k_c05_if_4_NRER, 4, 137, body_if);
-    //@ob name=C05.if.4.NENR harness=k_c05_if_4_NENR props=C05,C04 tier=thorough strength=bounded bound="4 operands; outcome pattern NENR (E=evaluation error, N=new value, R=raw value, P=does not parse); truthiness of every value symbolic" fns=op::logic::if_ stubs=4 timeout=300 cutdrop=1 group=heavy
+    //@ob name=C05.if.4.NENR harness=k_c05_if_4_NENR props=C05,C04 tier=off strength=bounded bound="4 operands; outcome pattern NENR (E=evaluation error, N=new value, R=raw value, P=does not parse); truthiness of every value symbolic" fns=op::logic::if_ stubs=4 timeout=300 cutdrop=1 group=heavy
     //@ desc="if over 4 operands: result (the deciding operand's value itself, or error/null) and the exact evaluation log (which operands, in which order, each at most once, against the outer data) equal the spec; an operand that is not needed has no effect even if it is invalid; the parser is applied to rule text only"
     lazy_harness!(k_c05_if_4_NENR, 4, 145, body_if);
-    //@ob name=C05.if.4.ERNR harness=k_c05_if_4_ERNR props=C05,C04 tier=thorough strength=bounded bound="4 operands; outcome pattern ERNR (E=evaluation error, N=new value, R=raw value, P=does not parse); truthiness of every value symbolic" fns=op::logic::if_ stubs=4 timeout=300 cutdrop=1 group=heavy
+    //@ob name=C05.if.4.ERNR harness=k_c05_if_4_ERNR props=C05,C04 tier=off strength=bounded bound="4 operands; outcome pattern ERNR (E=evaluation error, N=new value, R=raw value, P=does not parse); truthiness of every value symbolic" fns=op::logic::if_ stubs=4 timeout=300 cutdrop=1 group=heavy
     //@ desc="if over 4 operands: result (the deciding operand's value itself, or error/null) and the exact evaluation log (which operands, in which order, each at most once, against the outer data) equal the spec; an operand that is not needed has no effect even if it is invalid; the parser is applied to rule text only"
     lazy_harness!(k_c05_if_4_ERNR, 4, 152, body_if);
     //@ob name=C05.if.4.NRNR harness=k_c05_if_4_NRNR props=C05,C04 tier=thorough strength=bounded bound="4 operands; outcome pattern NRNR (E=evaluation error, N=new value, R=raw value, P=does not parse); truthiness of every value symbolic" fns=op::logic::if_ stubs=4 timeout=300 cutdrop=1 group=medium
@@ -499,16 +499,16 @@ pub(crate) mod verif_logic {
     //@ob name=C05.if.5.NRNRE harness=k_c05_if_5_NRNRE props=C05,C04 tier=thorough strength=bounded bound="5 operands; outcome pattern NRNRE (E=evaluation error, N=new value, R=raw value, P=does not parse); truthiness of every value symbolic" fns=op::logic::if_ stubs=4 timeout=300 cutdrop=1 group=medium
     //@ desc="if over 5 operands: result (the deciding operand's value itself, or error/null) and the exact evaluation log (which operands, in which order, each at most once, against the outer data) equal the spec; an operand that is not needed has no effect even if it is invalid; the parser is applied to rule text only"
     lazy_harness!(k_c05_if_5_NRNRE, 5, 153, body_if);
-    //@ob name=C05.if.5.NRNEN harness=k_c05_if_5_NRNEN props=C05,C04 tier=thorough strength=bounded bound="5 operands; outcome pattern NRNEN (E=evaluation error, N=new value, R=raw value, P=does not parse); truthiness of every value symbolic" fns=op::logic::if_ stubs=4 timeout=300 cutdrop=1 group=heavy
+    //@ob name=C05.if.5.NRNEN harness=k_c05_if_5_NRNEN props=C05,C04 tier=off strength=bounded bound="5 operands; outcome pattern NRNEN (E=evaluation error, N=new value, R=raw value, P=does not parse); truthiness of every value symbolic" fns=op::logic::if_ stubs=4 timeout=300 cutdrop=1 group=heavy
     //@ desc="if over 5 operands: result (the deciding operand's value itself, or error/null) and the exact evaluation log (which operands, in which order, each at most once, against the outer data) equal the spec; an operand that is not needed has no effect even if it is invalid; the parser is applied to rule text only"
     lazy_harness!(k_c05_if_5_NRNEN, 5, 281, body_if);
-    //@ob name=C05.if.5.NRERN harness=k_c05_if_5_NRERN props=C05,C04 tier=thorough strength=bounded bound="5 operands; outcome pattern NRERN (E=evaluation error, N=new value, R=raw value, P=does not parse); truthiness of every value symbolic" fns=op::logic::if_ stubs=4 timeout=300 cutdrop=1 group=heavy
+    //@ob name=C05.if.5.NRERN harness=k_c05_if_5_NRERN props=C05,C04 tier=off strength=bounded bound="5 operands; outcome pattern NRERN (E=evaluation error, N=new value, R=raw value, P=does not parse); truthiness of every value symbolic" fns=op::logic::if_ stubs=4 timeout=300 cutdrop=1 group=heavy
     //@ desc="if over 5 operands: result (the deciding operand's value itself, or error/null) and the exact evaluation log (which operands, in which order, each at most once, against the outer data) equal the spec; an operand that is not needed has no effect even if it is invalid; the parser is applied to rule text only"
     lazy_harness!(k_c05_if_5_NRERN, 5, 393, body_if);
-    //@ob name=C05.if.5.NENRN harness=k_c05_if_5_NENRN props=C05,C04 tier=thorough strength=bounded bound="5 operands; outcome pattern NENRN (E=evaluation error, N=new value, R=raw value, P=does not parse); truthiness of every value symbolic" fns=op::logic::if_ stubs=4 timeout=300 cutdrop=1 group=heavy
+    //@ob name=C05.if.5.NENRN harness=k_c05_if_5_NENRN props=C05,C04 tier=off strength=bounded bound="5 operands; outcome pattern NENRN (E=evaluation error, N=new value, R=raw value, P=does not parse); truthiness of every value symbolic" fns=op::logic::if_ stubs=4 timeout=300 cutdrop=1 group=heavy
     //@ desc="if over 5 operands: result (the deciding operand's value itself, or error/null) and the exact evaluation log (which operands, in which order, each at most once, against the outer data) equal the spec; an operand that is not needed has no effect even if it is invalid; the parser is applied to rule text only"
     lazy_harness!(k_c05_if_5_NENRN, 5, 401, body_if);
-    //@ob name=C05.if.5.ERNRN harness=k_c05_if_5_ERNRN props=C05,C04 tier=thorough strength=bounded bound="5 operands; outcome pattern ERNRN (E=evaluation error, N=new value, R=raw value, P=does not parse); truthiness of every value symbolic" fns=op::logic::if_ stubs=4 timeout=300 cutdrop=1 group=heavy
+    //@ob name=C05.if.5.ERNRN harness=k_c05_if_5_ERNRN props=C05,C04 tier=off strength=bounded bound="5 operands; outcome pattern ERNRN (E=evaluation error, N=new value, R=raw value, P=does not parse); truthiness of every value symbolic" fns=op::logic::if_ stubs=4 timeout=300 cutdrop=1 group=heavy
     //@ desc="if over 5 operands: result (the deciding operand's value itself, or error/null) and the exact evaluation log (which operands, in which order, each at most once, against the outer data) equal the spec; an operand that is not needed has no effect even if it is invalid; the parser is applied to rule text only"
     lazy_harness!(k_c05_if_5_ERNRN, 5, 408, body_if);
     //@ob name=C05.if.5.NRNRN harness=k_c05_if_5_NRNRN props=C05,C04 tier=thorough strength=bounded bound="5 operands; outcome pattern NRNRN (E=evaluation error, N=new value, R=raw value, P=does not parse); truthiness of every value symbolic" fns=op::logic::if_ stubs=4 timeout=300 cutdrop=1 group=medium
